@@ -79,6 +79,12 @@ Compiler/CompilerCheck.vos Compiler/CompilerCheck.vok Compiler/CompilerCheck.req
 Compiler/CstAgreement.vo Compiler/CstAgreement.glob Compiler/CstAgreement.v.beautified Compiler/CstAgreement.required_vo: Compiler/CstAgreement.v Gen/AstBuilderArms.vo
 Compiler/CstAgreement.vio: Compiler/CstAgreement.v Gen/AstBuilderArms.vio
 Compiler/CstAgreement.vos Compiler/CstAgreement.vok Compiler/CstAgreement.required_vos: Compiler/CstAgreement.v Gen/AstBuilderArms.vos
+Compiler/Includes.vo Compiler/Includes.glob Compiler/Includes.v.beautified Compiler/Includes.required_vo: Compiler/Includes.v 
+Compiler/Includes.vio: Compiler/Includes.v 
+Compiler/Includes.vos Compiler/Includes.vok Compiler/Includes.required_vos: Compiler/Includes.v 
+Compiler/IncludesProofs.vo Compiler/IncludesProofs.glob Compiler/IncludesProofs.v.beautified Compiler/IncludesProofs.required_vo: Compiler/IncludesProofs.v Compiler/Includes.vo
+Compiler/IncludesProofs.vio: Compiler/IncludesProofs.v Compiler/Includes.vio
+Compiler/IncludesProofs.vos Compiler/IncludesProofs.vok Compiler/IncludesProofs.required_vos: Compiler/IncludesProofs.v Compiler/Includes.vos
 Compiler/Snapshot.vo Compiler/Snapshot.glob Compiler/Snapshot.v.beautified Compiler/Snapshot.required_vo: Compiler/Snapshot.v Gen/SnapshotGen.vo
 Compiler/Snapshot.vio: Compiler/Snapshot.v Gen/SnapshotGen.vio
 Compiler/Snapshot.vos Compiler/Snapshot.vok Compiler/Snapshot.required_vos: Compiler/Snapshot.v Gen/SnapshotGen.vos
